@@ -42,6 +42,16 @@ CLAIMED = {
    note="Trusted: Lean kernel; Spec/DramData.lean (the independent DRAM); the legal-trace generator; rddata_valid judged on phase 0 only.",
    technique="Lean 4 proof (refinement SimPhy -> reference DRAM on legal traces) + co-simulation + reference comparison",
    design="§6 C19"),
+ "C01": dict(
+   text="Cycle-accurate Lean model of the whole memory core (crossbar + controller + simulation PHY/DRAM, Model/Core.lean) co-simulated signal-by-signal (all port handshakes, read data, all DFI phases) against the real crossbar, LiteDRAMController and SDRAMPHYModel for 1..8 ports over random configurations; the port-memory specification monitor (Spec/PortMemory: effects in acceptance order, byte enables, reads in command order) is evaluated on the implementation's port events. Proved lemmas: crossbar grant stability under lock, strobe routing, address bijection (C06), bank-machine legality (C02), timing gates (C03); the top-level composition `core_memory_semantics_full` is stated, not proved.",
+   note="Trusted: Lean kernel; Spec/PortMemory.lean; co-simulation coverage as reported; PHY = SDRAMPHYModel (C19). Partial: top-level refinement theorem.",
+   technique="Lean 4 proof (component lemmas) + cycle-exact whole-core co-simulation + Lean port-memory monitor on implementation traces",
+   design="§6 C01"),
+ "C05": dict(
+   text="Lean theorems: round-robin fairness (a requester that keeps requesting is granted within n-1 enabled arbitrations), crossbar grant changes only when the bank is idle and unlocked, anti-starvation timers force a direction switch within read_time/write_time cycles; explicit Bound(cfg) fixed; on implementation traces (whole-core co-simulation) every offer->accept and accept->strobe latency is checked against Bound(cfg). Known finding c05-same-bank-lockout (a master monopolising a bank starves the others) is demonstrated on the real code every run. The composed bound is stated, not proved.",
+   note="Trusted: Lean kernel; Bound(cfg) formula of the harness; anti-starvation timeouts enabled. Partial: composed latency bound (measured, reported as max latency / Bound).",
+   technique="Lean 4 proof (arbiter and timer lemmas) + whole-core co-simulation + latency monitor",
+   design="§6 C05"),
  "C06": dict(
    text="Lean theorems over the parametric address-map model for every geometry satisfying WF: left and right inverse (injective, onto), A10 never a column bit, row part, consecutive walk; model tied to the real crossbar routing and _AddressSlicer by exhaustive (small geometries) and dense evaluation in Migen's simulator.",
    note="Trusted: Lean kernel, Spec (Loc/addrOf/encodeCol in Props/C06.lean), correspondence harness; the steerer's rank/bank split is replicated in the harness and re-observed end-to-end by C01/C02 whole-core runs.",
